@@ -488,7 +488,17 @@ theorem scopedOnce (beh : Beh) (hnil : NoNilOutputs beh) (descs : List Desc) (ra
       intro st s d R inv ho hs hd hl hR hzero
       unfold createInstance
       split
-      · exact SRes.ofStore inv (setInstance_store st s d d.ident _ hl ho).1
+      next v _ =>
+        simp only []
+        obtain ⟨hst1, hok1, _⟩ := setInstance_store st s d d.ident (.inst v) hl ho
+        simp only [hok1]
+        have hsl : ∀ sd ∈ d.sibs.filterMap (findDesc st.descs), sd.life ≠ .singleton := by
+          intro sd hsd
+          obtain ⟨sid, hsid, hf⟩ := List.mem_filterMap.1 hsd
+          rw [inv.descsEq] at hf
+          rw [cfg.wf.sibLife d hd sid hsid sd hf]; exact hl
+        obtain ⟨hst2, _⟩ := shareAll_store s d.id (.inst v) (d.sibs.filterMap (findDesc st.descs)) _ hsl hst1.opened
+        exact SRes.ofStore inv (hst1.trans hst2)
       next hk =>
         simp only []
         have hA := ihA st s d.deps [] (rank d.ctor) inv ho hs (fun dep hdep t ht => cfg.ranked d hd dep hdep t ht)
